@@ -166,6 +166,18 @@ def random_cases(draw):
     return dict({'target': target, 'op': op, 'rec': rec}, **ch)
 
 
+def _extra_labels(labels, kind, bits):
+    """Labels of the axis' own type that the axis does not hold (for integer labels: negative ones and ones beyond the length)."""
+    if bits % 3 == 0:
+        return []
+    if kind in ('auto', 'int'):
+        cand = [-1, -2, len(labels) + 5, -len(labels)] if bits % 3 == 1 else [-1, len(labels)]
+        return [c for c in cand if not any(eq(c, x) for x in labels)][:2]
+    if kind == 'str':
+        return ['zz_absent']
+    return []
+
+
 def check_random(case):
     op = case['op']
     rec = case['rec']
@@ -201,7 +213,10 @@ def check_random(case):
             fv = [100 + i for i in keep]
             if not keep:
                 raise Discard('empty fill container')
-            other = sf.Series(fv, index=[ilr[i] for i in keep])
+            # the container also carries labels the target does not have (negative / beyond its length for integer labels):
+            # they address nothing
+            xl = _extra_labels(ilr, rec['index']['kind'], case['keep'])
+            other = sf.Series(fv + [7777] * len(xl), index=[ilr[i] for i in keep] + xl)
             r = lib(lambda: s.fillna(other))
             if isinstance(r, Raised):
                 raise Failure('raised:%s' % r.cls, 'fillna(Series) raised %r' % r.exc, r.where)
@@ -279,7 +294,10 @@ def check_random(case):
         if not keep_r or not keep_c:
             raise Discard('empty fill container')
         data = {(i, j): 1000 + i * 10 + j for i in keep_r for j in keep_c}
-        other = sf.Frame.from_items([(clr[j], [data[(i, j)] for i in keep_r]) for j in keep_c], index=[ilr[i] for i in keep_r])
+        xr = _extra_labels(ilr, rec['index']['kind'], case['keep'])
+        xc = _extra_labels(clr, rec['columns']['kind'], case['keep'] >> 3)
+        other = sf.Frame.from_items([(clr[j], [data[(i, j)] for i in keep_r] + [7777] * len(xr)) for j in keep_c] + [(c, [7777] * (len(keep_r) + len(xr))) for c in xc],
+                                    index=[ilr[i] for i in keep_r] + xr)
         r = lib(lambda: f.fillna(other))
         if isinstance(r, Raised):
             raise Failure('raised:%s' % r.cls, 'fillna(Frame) raised %r' % r.exc, r.where)
